@@ -11,3 +11,20 @@ Theorem C09_src_swap_due :
   = ((1 <? ntemps)%nat && (iteration mod swap_interval =? 0)%nat).
 Proof. exact src_swap_due_tie. Qed.
 Print Assumptions C09_src_swap_due.
+
+(** the row a sweep is stored in is (iteration - lastclear - 1) // swap_interval, the same for the
+    index array and the acceptance ratios ([swap_temperatures] of the model: [sc_set (tS p) (ii / si p)]),
+    and the views show len // swap_interval rows ([temperature_swaps] of the model) *)
+Theorem C09_src_sweep_row :
+  forall iteration lastclear swap_interval : nat, (lastclear < iteration)%nat ->
+  src_swap_row (src_swap_ii (Z.of_nat iteration) (Z.of_nat lastclear)) (Z.of_nat swap_interval)
+  = Z.of_nat ((iteration - lastclear - 1) / swap_interval).
+Proof. intros i l s H. rewrite src_swap_ii_tie by exact H. apply src_swap_row_tie. Qed.
+Print Assumptions C09_src_sweep_row.
+
+Theorem C09_src_view_rows :
+  forall len swap_interval : nat,
+  src_swaps_view_rows (Z.of_nat len) (Z.of_nat swap_interval) = Z.of_nat (len / swap_interval)
+  /\ src_acceptance_view_rows (Z.of_nat len) (Z.of_nat swap_interval) = Z.of_nat (len / swap_interval).
+Proof. exact src_view_rows_tie. Qed.
+Print Assumptions C09_src_view_rows.
